@@ -29,6 +29,15 @@ struct Inst {
     std::string error;
     bool len_ok{true};
     std::string len_msg;
+    // object-lifetime events inside the stream (derived from fseed): the processor is replaced by a COPY of itself, or
+    // forked into original + copy that both continue; a call of invalid shape is offered and must be rejected cleanly
+    int64_t copy_at{-1};
+    int copy_mode{0};   // 0: continue with the copy, drop the original; 1: both continue
+    int64_t bad_at{-1};
+    std::unique_ptr<Proc> fork;
+    std::vector<std::vector<double>> fork_ch;
+    int copies{0};
+    int rejected{0};
 };
 
 int64_t max_stream(int kind, bool big) {
@@ -295,6 +304,15 @@ Result exec(const Plan& pl) {
                 in->frames = make_framing(in->fstyle == FS_ALLMASKS ? int(FS_ONES) : in->fstyle, in->fseed, in->n, in->fparam, std::max(1, in->proc->memory / in->proc->granule),
                                           in->proc->block / in->proc->granule);
                 in->ch.assign(size_t(in->proc->nch), {});
+                const uint64_t hz = mix(in->fseed, 0x0C0B);
+                const int64_t nf = int64_t(in->frames.size());
+                if (nf >= 2 && hz % 5 == 0) {
+                    in->copy_at = 1 + int64_t((hz >> 8) % uint64_t(nf - 1));
+                    in->copy_mode = in->proc->value_copy ? int((hz >> 40) & 1) : 0;
+                }
+                if (nf >= 2 && hz % 7 == 0) {
+                    in->bad_at = 1 + int64_t((hz >> 20) % uint64_t(nf - 1));
+                }
             } catch (const std::exception& e) {
                 in->error = std::string("construct: ") + e.what();
             }
@@ -320,10 +338,34 @@ Result exec(const Plan& pl) {
                 ++late_constructions[size_t(me)];
             }
             const int ns = in->frames[in->next] * in->proc->granule;
+            if (int64_t(in->next) == in->bad_at) {
+                set_cur_opf("C06 %s rejected call before frame %zu", proc_name(in->spec.kind), in->next);
+                const int rc = in->proc->bad_call(uint32_t(in->fseed + in->next));
+                if (rc < 0) {
+                    in->error = fmt("before frame %zu: a call of invalid shape (wrong granularity / mismatched lengths) was accepted", in->next);
+                }
+                in->rejected += (rc > 0);
+            }
+            if (int64_t(in->next) == in->copy_at && in->error.empty()) {
+                set_cur_opf("C06 %s copy before frame %zu", proc_name(in->spec.kind), in->next);
+                std::unique_ptr<Proc> c = in->proc->clone();
+                if (c) {
+                    ++in->copies;
+                    if (in->copy_mode == 0) {
+                        in->proc = std::move(c);   // the original is destroyed, the stream continues on the copy
+                    } else {
+                        in->fork = std::move(c);   // original and copy both continue with the same remaining stream
+                        in->fork_ch = in->ch;
+                    }
+                }
+            }
             set_cur_opf("C06 %s frame %zu len %d", proc_name(in->spec.kind), in->next, ns);
             const size_t before = in->ch[0].size();
             try {
                 in->proc->call(in->input.data() + in->pos * size_t(in->proc->in_width), ns, in->ch);
+                if (in->fork) {
+                    in->fork->call(in->input.data() + in->pos * size_t(in->proc->in_width), ns, in->fork_ch);
+                }
             } catch (const std::exception& e) {
                 in->error = fmt("frame %zu (len %d): exception: %s", in->next, ns, e.what());
             }
@@ -390,6 +432,19 @@ Result exec(const Plan& pl) {
                              cmp.what.c_str(), static_cast<long long>(in.n), in.proc->granule, in.frames.size(), in.fstyle));
             }
         }
+        if (in.fork) {
+            for (size_t c = 0; c < ref.size(); ++c) {
+                const Cmp cmp = compare_stream_local(in.fork_ch[c], ref[c], 1e-9, size_t(4 * in.proc->memory + 64) * size_t((c == 0) ? in.proc->out_width : in.proc->ch1_width));
+                if (!cmp.ok) {
+                    const size_t w = size_t((c == 0) ? in.proc->out_width : in.proc->ch1_width);
+                    res.fail(std::string("C06:copy-mismatch:") + name,
+                             fmt("%s inst#%zu channel %zu output sample %zu: a COPY made before frame %lld and continued alongside the original deviates: %s", name, k, c, cmp.at / w,
+                                 static_cast<long long>(in.copy_at), cmp.what.c_str()));
+                }
+            }
+        }
+        res.inc("fault.copied_mid_stream", in.copies);
+        res.inc("fault.rejected_call_mid_stream", in.rejected);
         if (!in.len_ok) {
             res.fail(std::string("C06:framelen:") + name, std::string(name) + " " + in.len_msg);
         }
